@@ -16,7 +16,9 @@ prop("C06", "exploration",
      "delegate reads exactly one answer before one virtual second of silence; a confirmation only if the target confirmed that "
      "request (real target: addAuthGrant ran and returned nil). Non-trivial = >=2 requests with at least one refusal and one "
      "approval, or a target/setup failure occurred; distinct by (variant, trailer, per request: decision, target index, observed "
-     "callback/setup/target events). Transport part (unit approval-callback): the principal approves the FIRST intent of a delegate "
+     "callback/setup/target events). Every connection of a case hands its bytes to the reader in a drawn delivery pattern (whole, one byte per "
+     "Read, keyed chunks of 1..7 bytes, optionally the last bytes together with io.EOF - all allowed by io.Reader and done by "
+     "tubes). Transport part (unit approval-callback): the principal approves the FIRST intent of a delegate "
      "connection through the additional verify callback of its handshake with the target (hopclient.setupTargetClient); the whole "
      "matrix mode {discoverable, hidden} x InsecureSkipVerify x trust {store, authorized key, both, neither} x expected name "
      "{server's, none, other} x callback decision {approve, refuse, approve iff target key, refuse iff target key} (192 cases) plus "
